@@ -21,8 +21,7 @@ package dns
 //@   ensures nonneg: ret0 >= 0
 //@   loop * invariant l >= 0
 //@   modifies MS.mapLstringJstruct__@compression
-//@ iface RR.String [C16]
-//@   opt no-safety
+//@ iface RR.String [C16 C05]
 //@   pure
 //@ iface RR.isDuplicate [C16 C20]
 //@   opt no-safety
